@@ -51,12 +51,57 @@ type fieldClass struct {
 	Lock     string `json:"lock,omitempty"`
 }
 
+// allSharedTypes: the components named by the property plus every struct type of the module that carries a mutex (found by
+// shape, so a renamed or new shared component is not silently skipped).
+func allSharedTypes(c *Ctx) []string {
+	seen := map[string]bool{}
+	var out []string
+	for _, T := range sharedTypes {
+		if !seen[T] {
+			seen[T] = true
+			out = append(out, T)
+		}
+	}
+	for path, pkg := range c.P.AllPkgs {
+		if pkg.Types == nil || !strings.HasPrefix(path, eng.Mod) || strings.Contains(path, "/internal/") {
+			continue
+		}
+		sc := pkg.Types.Scope()
+		for _, name := range sc.Names() {
+			tn, ok := sc.Lookup(name).(*types.TypeName)
+			if !ok {
+				continue
+			}
+			st, ok := tn.Type().Underlying().(*types.Struct)
+			if !ok {
+				continue
+			}
+			for i := 0; i < st.NumFields(); i++ {
+				if ts := st.Field(i).Type().String(); ts == "sync.Mutex" || ts == "sync.RWMutex" {
+					T := eng.Short(path + "." + name)
+					if !seen[T] && !strings.HasPrefix(T, mainPkg+".") {
+						seen[T] = true
+						out = append(out, T)
+					}
+				}
+			}
+		}
+	}
+	sort.Strings(out)
+	return out
+}
+
 func ruleGuarded(c *Ctx) {
+	ruleGuardedTypes(c, "GUARDED", allSharedTypes(c), 14, 60)
+}
+
+// ruleGuardedTypes classifies every field of the given struct types (immutable / guarded / write-once / confined) under rule.
+func ruleGuardedTypes(c *Ctx, rule string, typesIn []string, minTypes, minFields int) {
 	p, l := c.P, c.L()
 	lockAnalysisCommon(c)
 	var table []fieldClass
 	nTypes := 0
-	for _, T := range sharedTypes {
+	for _, T := range typesIn {
 		fields := p.StructFields(T)
 		if fields == nil {
 			// a component type that no longer exists under this name: not an alarm by itself, but the floor below guards vacuity
@@ -68,7 +113,7 @@ func ruleGuarded(c *Ctx) {
 			key := T + "." + fl.Name()
 			if isSyncType(fl.Type()) {
 				table = append(table, fieldClass{key, "sync primitive", 0, 0, ""})
-				c.Check("GUARDED", key, "-", true, "sync primitive||")
+				c.Check(rule, key, "-", true, "sync primitive||")
 				continue
 			}
 			accs := p.FieldAccesses(T, fl.Name())
@@ -88,7 +133,7 @@ func ruleGuarded(c *Ctx) {
 			}
 			if writes == 0 {
 				table = append(table, fieldClass{key, "immutable after construction", len(live), 0, ""})
-				c.Check("GUARDED", key, "-", true, fmt.Sprintf("immutable after construction (%d reads, no store on an existing object)||", len(live)))
+				c.Check(rule, key, "-", true, fmt.Sprintf("immutable after construction (%d reads, no store on an existing object)||", len(live)))
 				continue
 			}
 			// guarded-by: intersection of lock sets
@@ -129,7 +174,7 @@ func ruleGuarded(c *Ctx) {
 			}
 			if guard != "" {
 				table = append(table, fieldClass{key, "guarded", len(live), writes, guard})
-				c.Check("GUARDED", key, p.IPos(live[0].Ins), true, fmt.Sprintf("guarded by %s on all %d accesses (%d writes, exclusive)||", guard, len(live), writes))
+				c.Check(rule, key, p.IPos(live[0].Ins), true, fmt.Sprintf("guarded by %s on all %d accesses (%d writes, exclusive)||", guard, len(live), writes))
 				continue
 			}
 			// write-once before go (reader goroutine reads)
@@ -154,19 +199,19 @@ func ruleGuarded(c *Ctx) {
 					}
 					if rest {
 						okWO = true
-						c.Exempt("GUARDED", key, "unlocked reads in the reader goroutine accepted: "+why)
+						c.Exempt(rule, key, "unlocked reads in the reader goroutine accepted: "+why)
 					}
 				}
 			}
 			if okWO {
 				table = append(table, fieldClass{key, "write-once before go", len(live), writes, ""})
-				c.Check("GUARDED", key, p.IPos(live[0].Ins), true, "written only before the go statement that publishes it; other accesses under the mutex||")
+				c.Check(rule, key, p.IPos(live[0].Ins), true, "written only before the go statement that publishes it; other accesses under the mutex||")
 				continue
 			}
 			// confinement
 			if ok, why := confined(c, T, live); ok {
 				table = append(table, fieldClass{key, "confined: " + why, len(live), writes, ""})
-				c.Check("GUARDED", key, p.IPos(live[0].Ins), true, "confined to one goroutine kind: "+why+"||")
+				c.Check(rule, key, p.IPos(live[0].Ins), true, "confined to one goroutine kind: "+why+"||")
 				continue
 			}
 			// violation: name the offending accesses
@@ -187,12 +232,12 @@ func ruleGuarded(c *Ctx) {
 				at = unl[0].Ins
 			}
 			table = append(table, fieldClass{key, "UNPROTECTED", len(live), writes, ""})
-			c.Check("GUARDED", key, p.IPos(at), false, "mutable shared field with no common lock over its accesses, not confined and not write-once: "+strings.Join(bad, " | "))
+			c.Check(rule, key, p.IPos(at), false, "mutable shared field with no common lock over its accesses, not confined and not write-once: "+strings.Join(bad, " | "))
 		}
 	}
 	c.Note("field_classification", table)
-	c.Floor("GUARDED", "shared component types found", nTypes, 14)
-	c.Floor("GUARDED", "fields classified", len(table), 60)
+	c.Floor(rule, "shared component types found", nTypes, minTypes)
+	c.Floor(rule, "fields classified", len(table), minFields)
 }
 
 // confined: every accessor is reachable from at most one go-target function (or only from non-goroutine API), and the
